@@ -230,12 +230,26 @@ pub fn gen_shapes_batch(d: &mut D, n: usize) -> Vec<Spec> {
         masks = (0..2048).collect();
     } else {
         masks.push(0);
+        // every subset of the struct_* words, every subset of the enum_* words (the generated code treats the two
+        // families separately, so any interaction of words of any size inside a family is covered), and the same
+        // pattern in both families at once
+        for k in 1..32usize {
+            for m in [k << 1, k << 6, (k << 1) | (k << 6)] {
+                if !masks.contains(&m) {
+                    masks.push(m);
+                }
+            }
+        }
         for i in 0..11 {
-            masks.push(1 << i);
+            if !masks.contains(&(1 << i)) {
+                masks.push(1 << i);
+            }
         }
         for i in 0..11 {
             for j in (i + 1)..11 {
-                masks.push((1 << i) | (1 << j));
+                if !masks.contains(&((1 << i) | (1 << j))) {
+                    masks.push((1 << i) | (1 << j));
+                }
             }
         }
         while masks.len() < n {
@@ -244,7 +258,7 @@ pub fn gen_shapes_batch(d: &mut D, n: usize) -> Vec<Spec> {
                 masks.push(m);
             }
         }
-        masks.truncate(n.max(67));
+        masks.truncate(n.max(134));
     }
     let mut specs = vec![];
     for m in masks {
